@@ -36,8 +36,64 @@ pub trait DbRow: Sized {
     fn from_row(row: &Row<'_>) -> (ret: DbResult<Self, DbError>);
 }
 
+// strum-derived `FromStr` is derive-generated code (outside this family): ASSUMED total on stored strings
+#[derive(Debug)]
+pub struct ParseError {}
+pub trait StrumEnum: Sized {
+    spec fn of_str(s: Seq<char>) -> Self;
+}
+//@@ extract file=acts/src/event/message.rs item="enum MessageState" name=MessageState
+//@@ opt structural
+//@@ end
+//@@ extract file=acts/src/package/mod.rs item="enum ActRunAs" name=ActRunAs
+//@@ opt structural
+//@@ end
+//@@ extract file=acts/src/package/mod.rs item="enum ActPackageCatalog" name=ActPackageCatalog
+//@@ opt structural
+//@@ end
+impl StrumEnum for MessageState { uninterp spec fn of_str(s: Seq<char>) -> Self; }
+impl StrumEnum for ActRunAs { uninterp spec fn of_str(s: Seq<char>) -> Self; }
+impl StrumEnum for ActPackageCatalog { uninterp spec fn of_str(s: Seq<char>) -> Self; }
+impl MessageState {
+    // TRUSTED: strum::EnumString (derive) parses the snake_case variant name; stored strings are valid
+    #[verifier::external_body]
+    pub fn from_str(s: &str) -> (r: Result<Self, ParseError>) ensures r is Ok, r->Ok_0 == <Self as StrumEnum>::of_str(s@) { unimplemented!() }
+}
+impl ActRunAs {
+    // TRUSTED: strum::EnumString (derive)
+    #[verifier::external_body]
+    pub fn from_str(s: &str) -> (r: Result<Self, ParseError>) ensures r is Ok, r->Ok_0 == <Self as StrumEnum>::of_str(s@) { unimplemented!() }
+}
+impl ActPackageCatalog {
+    // TRUSTED: strum::EnumString (derive)
+    #[verifier::external_body]
+    pub fn from_str(s: &str) -> (r: Result<Self, ParseError>) ensures r is Ok, r->Ok_0 == <Self as StrumEnum>::of_str(s@) { unimplemented!() }
+}
+pub mod acts { pub use super::MessageState; pub use super::ActRunAs; pub use super::ActPackageCatalog; }
+// (derive(Structural) inside a submodule crashes Verus 0.2026.09.13: enums live at the crate root)
+//@@ extract file=acts/src/store/data/message.rs item="enum MessageStatus" name=MessageStatus
+//@@ opt structural
+//@@ end
+pub open spec fn status_of_i8(v: i8) -> MessageStatus {
+    if v == 1 { MessageStatus::Acked } else if v == 2 { MessageStatus::Completed } else if v == 3 { MessageStatus::Error } else { MessageStatus::Created }
+}
+impl vstd::std_specs::convert::FromSpecImpl<i8> for MessageStatus {
+    open spec fn obeys_from_spec() -> bool { true }
+    open spec fn from_spec(v: i8) -> Self { status_of_i8(v) }
+}
+impl From<i8> for MessageStatus {
+//@@ extract file=acts/src/store/data/message.rs in="impl From<i8> for MessageStatus" item="fn from" name=MessageStatus::from_i8 props=C10,C09
+//@@ opt traitpost
+//@@ end
+}
+
 pub mod data {
 use super::*;
+pub use super::{MessageStatus, status_of_i8};
+//@@ extract file=acts/src/store/data/message.rs item="struct Message"
+//@@ end
+//@@ extract file=acts/src/store/data/package.rs item="struct Package"
+//@@ end
 //@@ extract file=acts/src/store/data/proc.rs item="struct Proc"
 //@@ end
 //@@ extract file=acts/src/store/data/task.rs item="struct Task"
@@ -116,6 +172,54 @@ impl DbRow for data::Event {
         }
     }
 //@@ extract file=store/sqlite/src/collection/event.rs in="impl DbRow for data::Event" item="fn from_row" name=sqlite::Event::from_row props=C10,C20
+//@@ spec
+    ensures
+        //# Q4-ok
+        ret is Ok,
+        //# Q4-fields
+        ret->Ok_0 == Self::row_spec(row),
+//@@ end
+}
+
+// ---------------------------------------------------------------- Message
+impl DbRow for data::Message {
+    open spec fn row_spec(row: &Row<'_>) -> Self {
+        data::Message {
+            id: row.col("id"@), tid: row.col("tid"@), name: row.col("name"@),
+            state: <MessageState as StrumEnum>::of_str(row.col::<String>("state"@)@),
+            r#type: row.col("type"@), model: row.col("model"@), pid: row.col("pid"@), nid: row.col("nid"@),
+            mid: row.col("mid"@), key: row.col("key"@), uses: row.col("uses"@), inputs: row.col("inputs"@),
+            outputs: row.col("outputs"@), tag: row.col("tag"@), start_time: row.col("start_time"@),
+            end_time: row.col("end_time"@), chan_id: row.col("chan_id"@), chan_pattern: row.col("chan_pattern"@),
+            create_time: row.col("create_time"@), update_time: row.col("update_time"@),
+            retry_times: row.col("retry_times"@), status: data::status_of_i8(row.col::<i8>("status"@)),
+            timestamp: row.col("timestamp"@),
+        }
+    }
+//@@ extract file=store/sqlite/src/collection/message.rs in="impl DbRow for data::Message" item="fn from_row" name=sqlite::Message::from_row props=C10,C09
+//@@ spec
+    ensures
+        //# Q4-ok
+        ret is Ok,
+        //# Q4-fields
+        ret->Ok_0 == Self::row_spec(row),
+//@@ end
+}
+
+// ---------------------------------------------------------------- Package
+impl DbRow for data::Package {
+    open spec fn row_spec(row: &Row<'_>) -> Self {
+        data::Package {
+            id: row.col("id"@), desc: row.col("desc"@), icon: row.col("icon"@), doc: row.col("doc"@),
+            version: row.col("version"@), schema: row.col("schema"@),
+            run_as: <ActRunAs as StrumEnum>::of_str(row.col::<String>("run_as"@)@),
+            resources: row.col("resources"@),
+            catalog: <ActPackageCatalog as StrumEnum>::of_str(row.col::<String>("catalog"@)@),
+            built_in: row.col("built_in"@), create_time: row.col("create_time"@),
+            update_time: row.col("update_time"@), timestamp: row.col("timestamp"@),
+        }
+    }
+//@@ extract file=store/sqlite/src/collection/package.rs in="impl DbRow for data::Package" item="fn from_row" name=sqlite::Package::from_row props=C10
 //@@ spec
     ensures
         //# Q4-ok
